@@ -2,6 +2,7 @@
 contract stubs and no-effect stubs.  Every stub used in a run is listed in the
 evidence of that run (engine.stats['stubs'])."""
 import z3
+import os, sys
 from .vals import *
 
 ZV = "example.com/scion-time/zzverif."
@@ -707,8 +708,41 @@ def install_aead(E):
                 E.guard = g0
         return (bs, sl.len)
 
+    def whole_draw(bs):
+        """the crypto/rand draw these bytes are a verbatim copy of (or None)"""
+        arr0 = None
+        for i, t in enumerate(bs):
+            if not (z3.is_app(t) and t.decl().kind() == z3.Z3_OP_SELECT):
+                return None
+            arr, idx = t.arg(0), t.arg(1)
+            if not (z3.is_bv_value(idx) and idx.as_long() == i):
+                return None
+            if arr0 is None:
+                arr0 = arr
+            elif not arr0.eq(arr):
+                return None
+        if arr0 is None:
+            return None
+        for (n, a) in E.ghost.get("rand_draws", []):
+            if a.eq(arr0) and n == len(bs):
+                return arr0
+        return None
+
     def snap_eq(a, b):
         (ab, al), (bb, bl) = a, b
+        cal, cbl = E.conc(al), E.conc(bl)
+        if cal is not None and cbl is not None and cal != cbl:
+            return FALSE
+        if len(ab) == len(bb) and cal is not None and cal == cbl == len(ab):
+            if all(x.eq(y) for x, y in zip(ab, bb)):
+                return TRUE
+            if E.cfg.get("rand_distinct") and len(ab) >= 8:
+                da, db = whole_draw(ab), whole_draw(bb)
+                if da is not None and db is not None and not da.eq(db):
+                    # two different draws of the same length: assumed not to collide (see crypto/rand.Read)
+                    return FALSE
+        if os.environ.get("VERIF_DEBUG_AEAD"):
+            print("snap_eq general:", len(ab), len(bb), al, bl, ab[0], bb[0], whole_draw(ab), whole_draw(bb), file=sys.stderr)
         cs = [al == bl]
         for i in range(min(len(ab), len(bb))):
             cs.append(Or(Not(z3.ULT(bv(i), al)), ab[i] == bb[i]))
@@ -722,6 +756,8 @@ def install_aead(E):
         alg, key, nsz = args
         kl = key.len
         ok = Or(kl == 32, kl == 64)
+        if not is_true(ok) and not is_false(ok):
+            ok = z3.simplify(ok)
         k = snap(key, "key")
         err = E.err_token()
         val = Iface(((TRUE, "$aead", ("aead", k, E.conc(nsz))),))
@@ -771,6 +807,11 @@ def install_aead(E):
                 m = And(e["g"], snap_eq(e["key"], key), snap_eq(e["nonce"], n), snap_eq(e["ct"], c), snap_eq(e["ad"], a))
                 if is_false(m):
                     continue
+                m = E.ctx_value(m) if hasattr(E, "ctx_value") else m
+                if not is_true(m):
+                    m = z3.simplify(m)
+                    if is_false(m):
+                        continue
                 first = And(m, Not(ok))
                 for i in range(len(e["pt"][0])):
                     ptb[i] = zif(first, e["pt"][0][i], ptb[i])
